@@ -240,6 +240,12 @@ class Externals:
                 maxlen = None if hi is None else maxlen + hi
             trace.append((spec, arg))
         self.I.hooks.log.append(('printf', ins, fmt, [t[1] for t in trace], st.top.fn.name))
+        if getattr(self.I.hooks, 'emit_events', True):
+            try:
+                from props.c14 import describe
+                st.event(('emit', fmt, tuple(describe(st, a) for a in va)))
+            except ImportError:
+                pass
         if dst is None:
             return None
         # snprintf(dst, size, ...): writes min(size, len+1) bytes at dst when size > 0
